@@ -22,6 +22,7 @@ from ..report import AnalysisError
 from .. import tables
 from ..tables import Leaf, Sliced
 from . import common, c08
+from ..model import canon as K
 
 TOK = tables.TOK
 MESH = common.MESH
@@ -252,7 +253,7 @@ def r2(prog, rep):
         rep.ob("R2", "option %s applies one operator to exactly its family %s" % (opt, sorted(want[opt])), got == want[opt], f.site(s), "found %s" % got, key="family/" + opt)
     # gfile comparisons use the reversal sign
     src = mod.code(f.node)
-    ok = src.count("psi_reverse_sign=-1.0ifself.user_options.reverse_currentelse1.0") == 2 and "abs(self.psi_axis-psi_reverse_sign*psi_axis_gfile)>1.0e-3" in src and "abs(self.psi_bdry-psi_reverse_sign*psi_bdry_gfile)>1.0e-3" in src
+    ok = src.count(K("psi_reverse_sign=-1.0ifself.user_options.reverse_currentelse1.0")) == 2 and K("abs(self.psi_axis-psi_reverse_sign*psi_axis_gfile)>1.0e-3") in src and K("abs(self.psi_bdry-psi_reverse_sign*psi_bdry_gfile)>1.0e-3") in src
     rep.ob("R2", "the gfile axis/boundary values are compared with the same reversal sign as applied to psi", ok, f.site(), "", key="family/gfile-compare")
     # f_psi_sign uniformity
     ctx = Context()
@@ -274,10 +275,10 @@ def r2(prog, rep):
     for n in walk_own(f.node):
         if isinstance(n, ast.Assign) and is_self_attr(n.targets[0]) and n.targets[0].attr in ("f_spl", "p_spl") and isinstance(n.value, ast.Call) and n.value.args:
             cons[n.targets[0].attr] = mod.code(n.value.args[0])
-    ok = cons.get("f_spl") == "psi1D*self.f_psi_sign" and cons.get("p_spl") == "psi1D*self.f_psi_sign"
+    ok = cons.get("f_spl") == K("psi1D*self.f_psi_sign") and cons.get("p_spl") == K("psi1D*self.f_psi_sign")
     rep.ob("R2", "both profile splines are built on the abscissa psi1D*f_psi_sign", ok, f.site(), str(cons), key="fpsisign/construction")
-    sg = [n for n in walk_own(f.node) if isinstance(n, ast.If) and mod.code(n.test) == "psi1D[-1]<psi1D[0]"]
-    ok = len(sg) == 1 and mod.code(sg[0].body[0]) == "self.f_psi_sign=-1.0"
+    sg = [n for n in walk_own(f.node) if isinstance(n, ast.If) and mod.code(n.test) == K("psi1D[-1]<psi1D[0]")]
+    ok = len(sg) == 1 and mod.code(sg[0].body[0]) == K("self.f_psi_sign=-1.0")
     rep.ob("R2", "f_psi_sign is -1 exactly when the (possibly reversed/extended) psi1D is decreasing", ok, f.site(), "", key="fpsisign/definition")
 
 
